@@ -260,9 +260,15 @@ func (p *poller) readWriteLoop() {
 						if c.onConnected == nil {
 							_ = c.flush()
 						} else {
+							// reset to read-only before the callback, so that
+							// data written in it can set the writing event again.
+							c.mux.Lock()
+							if len(c.writeList) == 0 {
+								c.resetRead()
+							}
+							c.mux.Unlock()
 							c.onConnected(c, nil)
 							c.onConnected = nil
-							c.resetRead()
 						}
 					}
 
